@@ -104,7 +104,10 @@ def step (_ : Unit) : List String → Unit × String
       -- the client's policy over the server's certificate: trust store (+ name), or skipped; its callback
       let cPol : Policy := ⟨true, nameOpts.contains "skip", false, cCbOn⟩
       let sFacts : CertFacts := { parses := true, formatOK := sCert, keyListed := false, chainOK := sCert, callbackOK := cCbOK }
-      ((), predict hidden p (policyAccepts cPol sFacts) (sAdv != "wrongkey") cf (cAdv != "wrongkey"))
+      -- afterwards an honest, listed client is served (C10: whatever the first counterpart did); the
+      -- probe says nothing about a server without its certified key or with a callback refusing all
+      let alive := if sAdv == "wrongkey" || (sCbOn && !sCbOK && p.configured) then "-" else "1"
+      ((), predict hidden p (policyAccepts cPol sFacts) (sAdv != "wrongkey") cf (cAdv != "wrongkey") ++ " a=" ++ alive)
     | _, _, _ => ((), "bad-op")
   | _ => ((), "bad-op")
 
